@@ -110,6 +110,7 @@ type resT struct {
 	Keys       []string         `json:"keys,omitempty"`
 	BindError  string           `json:"bind_error,omitempty"`
 	HarnessErr string           `json:"harness_error,omitempty"`
+	lastErr    string
 }
 
 func (r *resT) add(drift bool, sig map[string]any, detail map[string]any) {
@@ -127,11 +128,16 @@ type session struct {
 	extW    map[string]*schema.ScopeSchema
 	refTags []string
 	sites   map[string]site
+	inTree  map[string]bool // scope tags of the tree proper (not of the external scopes)
 }
 
 func newSession(tree *T, ext map[string]*T) *session {
 	s := &session{tree: tree, ext: ext, w: newWorld(true), extW: map[string]*schema.ScopeSchema{}, sites: map[string]site{}}
 	s.w.index(tree)
+	s.inTree = map[string]bool{}
+	for g := range s.w.scopeAST {
+		s.inTree[g] = true
+	}
 	var st []site
 	refSites(tree, nil, "", &st)
 	for _, name := range sortedKeys(ext) {
@@ -178,7 +184,7 @@ func (s *session) step(a actT) *sup.PanicInfo {
 func (s *session) vr() map[string]bool {
 	out := map[string]bool{}
 	for g, sc := range s.w.scopes {
-		if _, isTree := s.w.scopeAST[g]; !isTree {
+		if !s.inTree[g] {
 			continue
 		}
 		out[g] = sc.ValidateReferences() == nil
@@ -420,23 +426,20 @@ func (p *pair) compare(res *resT, mkIn func() any, exp *expT, label map[string]a
 		}
 	}
 	if !a.ok {
+		res.lastErr = a.err
 		return false, true
 	}
-	// the unserialized value through Validate and Serialize of both schemas
+	// the unserialized value through Validate and Serialize of both schemas (not for very deep
+	// chains: ListSchema.Serialize validates the whole subtree at every level and one-of Validate
+	// runs a compatibility pass over the whole subtree at every level - quadratic in the depth)
+	if d, ok := label["depth"].(int); ok && d > 200 {
+		return true, true
+	}
 	va := guarded(func() (any, error) { return nil, p.orig.Validate(a.v) })
 	vb := guarded(func() (any, error) { return nil, p.inl.Validate(a.v) })
-	// (ListSchema.Serialize validates the whole subtree at every level: quadratic in the depth)
-	skipSer := false
-	if d, ok := label["depth"].(int); ok && d > 1000 {
-		skipSer = true
-	}
-	sa, sb := outcome{}, outcome{}
-	if !skipSer {
-		sa = guarded(func() (any, error) { return p.orig.Serialize(a.v) })
-		sb = guarded(func() (any, error) { return p.inl.Serialize(a.v) })
-		res.Evals += 2
-	}
-	res.Evals += 2
+	sa := guarded(func() (any, error) { return p.orig.Serialize(a.v) })
+	sb := guarded(func() (any, error) { return p.inl.Serialize(a.v) })
+	res.Evals += 4
 	for _, q := range []struct {
 		op   string
 		x, y outcome
